@@ -1036,7 +1036,15 @@ impl Scenario for C11 {
                     };
                     match k {
                         10 => {
-                            let version = if rng.chance(1, 5) { None } else { Some((rng.s(grel::OPS).to_string(), format!("{}.{seq}", grel::version(rng, true)))) };
+                            let version = if rng.chance(1, 5) {
+                                None
+                            } else if let (Some((op0, v0)), true) = (rm.version.clone(), rng.chance(1, 3)) {
+                                // keep the version, change only the operator (or nothing at all)
+                                let ops: Vec<&str> = grel::OPS.iter().cloned().filter(|o| *o != op0 || rng.chance(1, 4)).collect();
+                                Some((rng.s(&ops).to_string(), v0))
+                            } else {
+                                Some((rng.s(grel::OPS).to_string(), format!("{}.{seq}", grel::version(rng, true))))
+                            };
                             rm.version = version.clone();
                             Ev::SetVersion { rel: rid, version }
                         }
